@@ -24,7 +24,7 @@ ASSUMPTIONS = [
 def _dyadic(draw, tier):
     g = draw(gen.int_train_lists(2, 2, **gen.sizes(tier)))
     c = gen.to_times(g)
-    c["mrts"] = draw(gen.mrts_for(g))
+    c["mrts"] = draw(gen.mrts_for(g, allow_auto=True))
     c["ri"] = draw(st.booleans())
     c["compiled"] = draw(st.booleans())
     c["domain"] = "dyadic"
@@ -73,7 +73,7 @@ PHASES = [
 
 def _bites(case):
     trs, T0, T1 = ps.fr_trains(case)
-    m = Fr(case["mrts"] or 0)
+    m = ps.mrts_exact(case)
     if m <= 0:
         return False
     x = O.breakpoints(trs, T0, T1)
@@ -113,7 +113,7 @@ def run_case(case, ctx):
     tol = ps.tol_of(case)
     st1, st2 = ps.trains(case)
     (a, b), T0, T1 = ps.fr_trains(case)
-    m = Fr(case["mrts"] or 0)
+    m = ps.mrts_exact(case)
     ri = bool(case["ri"])
     kw = ps.kw(case, ("MRTS", "RI"))
     f = ctx.call("spike_profile", pyspike.spike_profile, st1, st2, **kw)
